@@ -216,11 +216,14 @@ mexp = next((v for k, v in deps.items() if str(k.name) == "mass"), 0)
 print("dimension", d, "SI unit", unit, "scale", f, "dimension of unit", ud)
 bad = sp.simplify(f - sp.Integer(1000)**mexp) != 0 or not dimsys_SI.equivalent_dims(ud, d.subs("angle", 1))
 v = sp.Rational(7, 3)
-si = convert_to_si(Quantity(v * unit))
-if sp.simplify(si - v) != 0: bad = True; print("convert_to_si(7/3 SI units) =", si)
-for cv in (1, -1, 2, 1000, sp.Rational(1, 1000), 1000000, sp.Float(1.0)):
-    got = convert_to_si(Quantity(cv, dimension=d.subs("angle", 1)))
-    if abs(sp.N(got * sp.Integer(1000)**mexp - cv)) > 1e-12 * abs(sp.N(cv)): bad = True; print("convert_to_si of the internal magnitude", cv, "=", got, "expected", cv / sp.Integer(1000)**mexp)
+try:          # valid conversions only: an exception out of them is a refusal of a convertible quantity
+    si = convert_to_si(Quantity(v * unit))
+    if sp.simplify(si - v) != 0: bad = True; print("convert_to_si(7/3 SI units) =", si)
+    for cv in (1, -1, 2, 1000, sp.Rational(1, 1000), 1000000, sp.Float(1.0)):
+        got = convert_to_si(Quantity(cv, dimension=d.subs("angle", 1)))
+        if abs(sp.N(got * sp.Integer(1000)**mexp - cv)) > 1e-12 * abs(sp.N(cv)): bad = True; print("convert_to_si of the internal magnitude", cv, "=", got, "expected", cv / sp.Integer(1000)**mexp)
+except Exception as e:
+    bad = True; print("a quantity of dimension", d, "is refused by convert_to_si:", type(e).__name__, str(e)[:200])
 if bad:
     print("REPRODUCED"); sys.exit(1)
 '''
